@@ -17,7 +17,7 @@ EXPLANATION = (
     "acceptor's errors name the document (else the handler cannot release). The finish table is written from the property "
     'text: the session that owns the slot frees it, a result of the other kind (dialled / accepted) leaves the slot alone; '
     'abort_connect hands a queued resync to the caller, and the completion handler follows it up with exactly one dial; '
-    "(R4) a declined dial's release can tell which dial it is about (reports F22, known finding). NOT decided (stated as "
+    "(R4) a declined dial's release can tell which dial it is about (reports F22, known finding). (R5) NamespaceStates::insert evaluated on a map model (marking a document again keeps its per-peer states) and LiveActor::start_sync / leave evaluated (the set of synced documents follows successful joins and leaves). NOT decided (stated as "
     'such): progress under loss — which completion events arrive, interleavings of the two automata over a network (model '
     'checking, a different family).'
 )
@@ -514,8 +514,18 @@ def r4(ctx):
     ctx.floor("C11.R4", 1)
 
 
+def r5(ctx):
+    """which documents are being synced, and what a repeated join does to the per-peer slots: the set is what start_sync /
+    leave make it (shared with C14.R9), and marking a document again keeps the slots of its running sessions"""
+    from . import livefw
+    livefw.check_state_insert(ctx, "C11.R5")
+    livefw.check_join_leave(ctx, "C11.R5")
+    ctx.floor("C11.R5", 7)
+
+
 def run(ctx):
     ctx.run_rule("C11.R1", r1)
     ctx.run_rule("C11.R2", r2)
     ctx.run_rule("C11.R3", r3)
     ctx.run_rule("C11.R4", r4)
+    ctx.run_rule("C11.R5", r5)
